@@ -170,6 +170,14 @@ def main(tier):
         op = rng.choice(list(OPS))
         if not (op == "mod" and Fraction(tb) == 0):
             cs.append(("text", op, ta, tb))
+    # EXACT divisions whose quotient is beyond 2^53 (and just below), divisor small or large: every representation
+    # of the operands (the case index picks Python ints / sympy Integers)
+    for q in (2 ** 53 + 1, 2 ** 53 - 1, 10 ** 17 + 3, 10 ** 20 + 7, 3 ** 40, 2 ** 64, -(2 ** 53 + 5), 10 ** 30 + 1):
+        for b in (3, 7, 10 ** 6 + 3, 2 ** 31 - 1, -9, 1, 2 ** 53 + 1):
+            for op in ("div", "idiv", "mod", "mul"):
+                for shift in (0, 1, 2, 3):      # shifts the deterministic choice of operand representation
+                    cs.append(("pair", op, Fraction(q * b), Fraction(b) if shift < 2 else Fraction(b * (1 if shift == 2 else -1))))
+                    cs.append(("pair", op, Fraction(q * b + shift), Fraction(b)))
     # magnitudes far from 1 on either side: tiny and huge operands against ordinary ones
     tiny = [Fraction(n, 10 ** k) for k in (9, 10, 11, 12, 15, 20, 40) for n in (1, -1, 3, 7)] + \
            [Fraction(10 ** k + 1, 10 ** (2 * k)) for k in (6, 12)]
